@@ -1084,6 +1084,16 @@ static void collect_fn_sigs(ASTNode *stmt, FunctionTypeRegistry *reg) {
         case AST_FOR:
             collect_fn_sigs(stmt->as.for_stmt.body, reg);
             break;
+        case AST_UNSAFE_BLOCK:
+            for (int i = 0; i < stmt->as.unsafe_block.count; i++) {
+                collect_fn_sigs(stmt->as.unsafe_block.statements[i], reg);
+            }
+            break;
+        case AST_MATCH:
+            for (int i = 0; i < stmt->as.match_expr.arm_count; i++) {
+                collect_fn_sigs(stmt->as.match_expr.arm_bodies[i], reg);
+            }
+            break;
         default:
             break;
     }
